@@ -49,6 +49,67 @@ SEEDS = [
     ("C17", 2, "`Solution::combine`: one-sided arm `(Definite s, Suggested s) => Suggested s`",
      "a definite/unique and a suggested solution with the same substitution, in that order",
      [("C17", "quick", "combine-not-commutative", "Solution::combine")], ""),
+    # ---- second batch
+    ("C03", 1, "SLG forest clock reset to 0 at every root query (the same change as C10-2, by another author)",
+     "several uses of one solver: an enumeration stopped early by the callback, or a `solve` that stops at ambiguity, followed by enumerating the same or a table-sharing goal again",
+     [("C03", "quick", "solution-never-yielded", "slg/after-first-answer/*, slg/after-solve/*"), ("C10", "quick", "panic-after-history / answer-depends-on-history", "slg/plain/…")],
+     "C10 reported it at once; C03 missed it at first: it enumerated only on a fresh solver and a second time after a COMPLETE enumeration. It now also enumerates on solvers whose tables were left partially filled (after a one-answer enumeration, after a `solve`)"),
+    ("C03", 2, "SLG `on_positive_cycle` drops a strand when the table it cycled back to has an empty strand queue",
+     "mutual recursion P -> Q -> P where P has one impl, `T: Q` is selected first, Q's recursive impl is declared before its base case (e.g. `impl<T> P for S<T> where T: Q; impl<T> Q for S<T> where T: P; impl Q for A`): the enumeration ends after `S<A>`",
+     [("C03", "quick", "solution-never-yielded", "slg/fresh/plain")],
+     "missed at first: the corpus declares impls in one canonical order and REF looked for witnesses of depth <= 3 only (the lost solution is `S<S<S<A>>>`). C03 now also runs the one-parameter fragments with their impls reversed and looks one level deeper there"),
+    ("C05", 1, "same change as C01-1 (recursive solver loses `minimums` of finished search-graph nodes)",
+     "`struct A { d: D, c: C, b: B } struct B { a: A } struct C { b: B }` with `impl !Send for D`: ask `A: Send`, then `C: Send` on the same recursive solver",
+     [("C10", "quick", "answer-depends-on-history", "recursive/co-trait-cycle/…"), ("C05", "quick", "answer-depends-on-history", "recursive/auto3/cyclic/fresh-None-later-Unique"), ("C05", "quick", "unique-but-goal-false", "recursive/closed/auto3/cyclic")],
+     "C10 reported it at once (F0x); C05 missed it: its auto-trait family had two mutually recursive structs with one field each. A three-struct family with ordered field lists over {N, P1, P2, P3} was added"),
+    ("C05", 2, "SLG `root_answer` no longer rejects answers that still carry delayed subgoals",
+     "`struct A { d: D, b: B } struct B { a: A }`, `impl !Send for D`: ask `A: Send`, then `B: Send` on the same SLG solver -> `Unique`",
+     [("C10", "quick", "answer-depends-on-history", "slg/co-trait-cycle/fresh-None-later-Unique"), ("C05", "quick", "answer-depends-on-history", "slg/auto3/cyclic/fresh-None-later-Unique")],
+     "missed at first for an instructive reason: the violation fell into the same (kind, site) group as known finding D16 (`slg/co-trait-cycle`, where a TRUE goal is later refused) and was printed as KNOWN-FINDING. The site of a history violation now carries the direction of the change (`fresh-Unique-later-None` vs `fresh-None-later-Unique`), and KNOWN_FINDINGS lists only the direction D16 has"),
+    ("C06", 1, "environment elaboration returns early for `FromEnv(SelfTy: Trait)` when SelfTy is an ADT with generic arguments",
+     "a hypothesis whose self type is a struct application (`if (W<T>: Top)`), or a trait where-clause `W<Self>: Top`, and a conclusion that needs a supertrait",
+     [("C06", "quick", "none-but-goal-true", "{slg,recursive}/closed/chain/…")],
+     "missed at first: every hypothesis had a placeholder or a unit struct as self type. Hypotheses on `W<K>` and `W<A>` and a trait where-clause on `W<Self>` were added"),
+    ("C06", 2, "implied-bound clauses skip where-clauses that mention the trait being declared (even at other arguments)",
+     "a one-trait cycle `trait Par<X> where X: Par<Self>, Self: Base` and a goal that needs the self-referential bound",
+     [("C06", "quick", "none-but-goal-true", "{slg,recursive}/closed/*/par-x-par-self/*")],
+     "missed at first: the only cycles were between different traits. A where-clause variant `X: Par<Self>` was added"),
+    ("C07", 1, "`generalize_ty` creates the variable replacing a nested alias in the root universe",
+     "an impl value with a projection nested under a constructor whose normal form mentions the impl parameter, asked under `forall`",
+     [("C07", "quick", "no-solution-although-impl-applies", "{slg,recursive}/…")],
+     "missed at first: nested projections in the menu normalized to constants. `type X = S<<S<T> as Tr2>::Y>` with `impl<T> Tr2 for S<T> { type Y = T; }` was added"),
+    ("C07", 2, "associated-type value clauses: stop at the first impl providing the value when the trait reference is closed",
+     "two impls whose headers both match and that are told apart only by a where-clause, the non-applicable one declared first",
+     [("C07", "quick", "no-solution-although-impl-applies, equality-unique-type-is-not-the-value", "{slg,recursive}/…"), ("C13", "quick", "answer-depends-on-declaration-order", "{slg,recursive}/assoc")],
+     "missed at first: at most one `Tr` impl per header shape. A concrete `impl Tr for S<B>` next to a generic `impl<T> Tr for S<T> where …` was added, declared before and after it"),
+    ("C13", 1, "same change as C07-2 (by another author)",
+     "see C07-2",
+     [("C13", "quick", "answer-depends-on-declaration-order", "{slg,recursive}/assoc"), ("C07", "quick", "no-solution-although-impl-applies", "…")],
+     "missed at first: C13 permuted only C01-fragment programs although its quantifier names the C05/C07 fragments too. The associated-type and auto-trait text families are now reordered at item level (every impl permutation, impls first, declarations reversed, everything reversed); the answer decoder now names associated types (ids change under reordering)"),
+    ("C13", 2, "same change as C01-2 (anti-unifier ignores placeholder universes)",
+     "see C01-2; the surviving placeholder is the one from the earlier answer, i.e. from the earlier impl",
+     [("C13", "quick", "answer-depends-on-declaration-order", "slg/{plain,co,co-trait-cycle}"), ("C01", "quick", "definite-guidance-excludes-solution", "slg/structural"), ("C17", "quick", "merged-guidance-excludes-input", "merge_into_guidance/*")], ""),
+    ("C16", 1, "canonicalizer: unbound const inference variables are no longer replaced by their union-find root",
+     "two const unknowns unified with each other, both still unbound when canonicalized",
+     [("C16", "quick", "canonical-form-differs-from-first-occurrence-numbering", "canonicalize")], ""),
+    ("C16", 2, "`UMapToCanonical` loses its override for const placeholders",
+     "a const placeholder whose universe is actually renumbered by universe compression",
+     [("C16", "quick", "compressed-form-wrong", "u_canonicalize"), ("C16", "quick", "compression-not-undone", "map_from_canonical/const-placeholder")], ""),
+    ("C18", 1, "`could_match`: two different placeholder lifetimes make `&'a T` vs `&'b T` a mismatch",
+     "references at the same position whose lifetimes are distinct placeholders (only environment/custom clauses have such conclusions)",
+     [("C18", "quick", "filter-rejects-unifiable", "could_match/ref, could_match/refmut")],
+     "missed at first: the term set had 'static and ONE placeholder lifetime. A second placeholder lifetime, an inference lifetime and an ADT over a lifetime were added"),
+    ("C18", 2, "`Program::impls_for_trait` fast path: a closed goal selects a non-generic impl only on syntactic equality",
+     "a closed goal whose arguments contain a projection that normalizes to the type in the impl header (`S<<A as Tr>::X>: Tr` with `impl Tr for S<B>`)",
+     [("C18", "quick", "answer-changes-when-filter-bypassed", "{slg,recursive}/assoc")],
+     "missed at first: the with/without-filter comparison ran on the C01 corpus only. It now also runs on the text families, which gained goals with projections in argument position"),
+    ("C19", 1, "`set_priorities` returns early on an impl it has already visited (the raised priority is no longer propagated)",
+     "a chain of at least four specializing impls, in a declaration order that reaches an inner impl first along a short path",
+     [("C19", "quick", "equal-priority-impls-overlap", "{slg,recursive}/pos-pos"), ("C19", "quick", "more-specific-impl-without-higher-priority", "{slg,recursive}")],
+     "missed at first: programs had at most three impls in one fixed declaration order. Every order of every 3..5-subset of the lattice T > S<T> > {S<A>, S<S<T>>} > S<S<A>> was added"),
+    ("C19", 2, "overlap check: `break` instead of `continue` after a pair of negative impls",
+     "at least two negative impls declared before the overlapping pair",
+     [("C19", "quick", "equal-priority-impls-overlap", "{slg,recursive}/pos-neg")], ""),
 ]
 
 def main():
